@@ -55,6 +55,13 @@ CHECKS["C10"] = dict(
     note="Trusted: Coq kernel; hand model CppTypesModel.v (dict-of-dict as association list, namespace tree as list of enum definitions, ASCII type names); the pointer-type model of C++ member access (validated by g++ -fsyntax-only on classes generated from the same declarations in the thorough tier); extraction + OCaml driver + S-expression codec; the correspondence is a differential test bounded by its generators; an independent text oracle (parser + dereference counting against the declarations) supplies failing inputs. Not covered: collections handed over behind two or more pointers (outside the property's declared space; one dereference is emitted), data members declared as collections (visit_Attribute never yields a collection representation), const-qualified value elements.",
     technique="Coq proof (induction over strings, metadata lists and call chains; small typed pointer model) + model/implementation correspondence + g++ syntax check",
 )
+CHECKS["C07"] = dict(
+    category="proof",
+    text="The state a process carries from one query to the next (method-type registry, enum/namespace registry, name counter, per-executor job-script / inject blocks, registered and found extended metadata, the shared default-argument dict) and the wrapper flow apply_ast_transformations -> write_cpp_files -> reset are modelled as a state machine around a universally quantified translator. Coq proves for every finite history, every backend mixture and every stage at which a query may raise that each handled query ends in the default state (C07_every_handle_ends_clean), and from it that for a process serving one backend the probe's package-or-error and found metadata equal, up to the numbering of generated names, those of the probe as first query of a fresh process (C07_independent_partial; the full statement is refuted for mixed backends, C07_independent_refuted = known finding). Four refutation theorems show the wrapper before the fix commit violated the property and that each part of the fix is needed. Histories are run against the real code in fresh interpreters; the probe is compared with the same probe in another fresh interpreter (concrete failing input) and every operation's registries with the extracted model.",
+    design_ref="5.7",
+    note="Trusted: Coq kernel (vm_compute only in witness lemmas); hand model ExecState.v; the translator is abstract and assumed to depend on the name counter only by renaming (explicit premise); completeness of the state inventory is tested, not proved - a new global in /repo is caught only by the differential histories; extraction, OCaml driver, S-expression codec; the correspondence reads (never writes) the registries and executor attributes; python_on_whales is stubbed to import DockerImageSpecification.",
+    technique="Coq proof (state-machine invariant by case analysis on the raising stage, lifted over fold_left) + differential histories in fresh interpreters",
+)
 NOT_YET = {}
 
 def main():
